@@ -64,7 +64,7 @@ func VH_C10_logout_post() {
 		req, err := sp.ValidateEncodedLogoutRequestPOST(enc)
 		vDebugErr("request", err)
 		vAssert("C09.result-xor-error", (req != nil) != (err != nil))
-		vAssert("C02.validation-context-uses-configured-store-and-sp-clock", vValidateCtxOK(sp))
+		vAssert("C02,C05.only-the-sp-clock-is-consulted", vWallReads() == 0)
 		if err != nil {
 			vReach("request-rejected", true)
 			return
@@ -88,7 +88,7 @@ func VH_C10_logout_post() {
 	resp, err := sp.ValidateEncodedLogoutResponsePOST(enc)
 	vDebugErr("response", err)
 	vAssert("C09.result-xor-error", (resp != nil) != (err != nil))
-	vAssert("C02.validation-context-uses-configured-store-and-sp-clock", vValidateCtxOK(sp))
+	vAssert("C02,C05.only-the-sp-clock-is-consulted", vWallReads() == 0)
 	if err != nil {
 		vReach("response-rejected", true)
 		return
